@@ -94,21 +94,24 @@ for _origin in ("root", "partial", "block", "partial-in-block"):
     contract(CTX + ".copy", prop="C15", name=f"copy[isolated: block_scope=False, caller={_origin}]")(lambda c, o=_origin: _copy_isolated(c, o))
 
 
-@contract("liquid.ast:Node.render", prop="C15")
-def node_render_disabled(c):
+def _node_render_disabled(c, sfx):
     env = mk_env(c)
     kind, value = c.str("token_kind"), c.str("token_value")
     d0 = c.str("disabled0")
     ctx = mk_ctx(c, env, disabled_tags=c.st.alloc(HList(items=[d0])))
     tok = c.obj("liquid.token:Token", "token", kind=kind, value=value, start_index=c.int("si"), source=c.str("src"))
     node = c.obj("liquid.ast:Node", "node", token=tok)
-    c.summary("liquid.ast:Node.render_to_output", lambda eng, st, a, k: [(st, VInt(z3.IntVal(0)))])
+    c.summary("liquid.ast:Node.render_to_output" + sfx, lambda eng, st, a, k: [(st, VInt(z3.IntVal(0)))])
     c.call(ctx, c.obj("io:StringIO", "buffer", __text__=c.str("out")), self_val=node)
     is_disabled = z3.And(kind.t == z3.StringVal("tag"), value.t == d0.t)
     c.ensures("renders-only-tags-that-are-not-disabled", lambda r: z3.Not(is_disabled))
     c.raises("DisabledTagError")
     c.ensures_exc("disabled-tag-error-iff-the-tag-is-disabled", lambda r: is_disabled)
     c.replay("code", code=REPLAY)
+
+
+for _sfx in ("", "_async"):
+    contract("liquid.ast:Node.render" + _sfx, prop="C15")(lambda c, s=_sfx: _node_render_disabled(c, s))
 
 
 @structural("C15", "call-sites")
